@@ -1,5 +1,5 @@
 """C11 — Wagner-Whitin: correspondence of Alg/WW.v with stockpyl.wagner_whitin + brute-force oracle."""
-import itertools, copy
+import itertools, copy, random
 from fractions import Fraction
 import numpy as np
 from vlib import *
@@ -11,7 +11,16 @@ RULE = ('T in 1..Tmax; holding/fixed/purchase costs as scalar, length-T or lengt
         '"bulk" = demands multiplied by 100 or 500 (prob. 0.25). Every argument is passed in one of the accepted number forms: python '
         'float(s), python int(s) (integer-valued data only), or for lists a numpy array of dtype float64/float32/int8/uint8/int16/uint16/'
         'int32/int64 (only dtypes that hold every entry exactly). All magnitudes stay below 2^53/16 so that the implementation computes exactly. '
-        'non-trivial = the optimal plan places more than one and fewer than T orders; distinct = distinct (T, normalised parameter lists).')
+        'non-trivial = the optimal plan places more than one and fewer than T orders; distinct = distinct (T, normalised parameter lists). '
+        'CALL SEQUENCES (every well-formed case, choices drawn from a per-case seed taken from the run\'s generator): the raw returned objects of a call '
+        'are kept by the caller; (1) a call on another horizon (one period appended / dropped) is interleaved; (2) 2-3 rounds of: the caller edits '
+        'the list/array objects of its latest result IN PLACE (round lots up to packs of 24 / zero / +1 / reverse / scale; fill / += / negate / '
+        'overwrite theta[1]), then calls again with the SAME data handed over as the same argument objects, as fresh objects in a re-drawn parameter '
+        'form (scalar where all periods agree, length-T, length-(T+1) with another slot 0, another number form), or as length-(T+1) float lists: '
+        'all four outputs must equal those of the first call; (3) the caller edits one of its ARGUMENT containers in place (swap two periods, +1 in '
+        'one period, or another value in the ignored slot 0 of a length-(T+1) list) and calls with the same objects: the result must satisfy every '
+        'clause of the property for the edited data. After every call and every edit all results obtained earlier must still hold what the caller '
+        'left in them, the arguments must be unchanged by edits of results, and the containers of one result must not change together.')
 
 INT_DTYPES = {'i8': (-2**7, 2**7 - 1), 'u8': (0, 2**8 - 1), 'i16': (-2**15, 2**15 - 1), 'u16': (0, 2**16 - 1),
               'i32': (-2**31, 2**31 - 1), 'i64': (-2**63, 2**63 - 1)}
@@ -83,6 +92,7 @@ def gen_case(rng, tmax):
         elif rng.random() < 0.5: c['form'][k] = 'float'
         else: c['form'][k] = rng.choice(fl)
     c['regime'] = dict(integer=integer, expensive=expensive, bulk=bulk)
+    c['session'] = rng.getrandbits(32)    # seed of the call sequence played on this instance (see session())
     return c
 
 
@@ -201,6 +211,214 @@ def oracle(c, r):
     return bad
 
 
+# ---- call sequences: results are values owned by the caller --------------------------------------------------------------------
+# Every clause of the property is about "the order quantities / cost / costs-to-go / pointers RETURNED" by a call. What the caller did
+# with the objects it got from EARLIER calls (or with its own argument containers after a call returned) is not an input of a later
+# call, and a later call is not allowed to reach back into what was returned before.
+
+def raw_call(T, args):
+    from stockpyl.wagner_whitin import wagner_whitin
+    return wagner_whitin(T, *args)
+
+
+def conv(res):
+    """what the four returned objects hold right now, as python floats (the entries are binary64 values or integers below 2^53, so float() loses
+    nothing; exact rationals are made from these only where an oracle needs them)"""
+    oq, cost, theta, nxt = res
+    return ([float(x) for x in oq], float(cost), [float(x) for x in theta], [float(x) for x in nxt])
+
+
+def as_result(got):
+    return ('ok', [F(x) for x in got[0]], F(got[1]), [F(x) for x in got[2]], [int(x) for x in got[3]])
+
+
+def pick_form(a, rng):
+    fl, it = allowed_forms(a)
+    if it and rng.random() < 0.75: return rng.choice(it)
+    if rng.random() < 0.5: return 'float'
+    return rng.choice(fl)
+
+
+def reform(c, rng):
+    """the same instance (equal values in periods 1..T) in freshly drawn parameter shapes and number forms"""
+    T = c['T']; c2 = dict(T=T, malformed=None, form={})
+    for k in 'hKdc':
+        vals = norm(c[k], T)[1:]
+        shapes = ['T', 'T1'] + (['scalar'] if all(v == vals[0] for v in vals) else [])
+        sh = rng.choice(shapes)
+        c2[k] = ['scalar', vals[0]] if sh == 'scalar' else ['list', ([Fraction(rng.randint(0, 9))] if sh == 'T1' else []) + list(vals)]
+        c2['form'][k] = pick_form(c2[k], rng)
+    return c2
+
+
+def other_horizon(c, rng):
+    """another instance on a horizon one period longer or shorter (length-T float lists)"""
+    T = c['T']
+    kind = rng.choice(['longer', 'shorter'] if T >= 2 else ['longer'])
+    v = dict(T=T + 1 if kind == 'longer' else T - 1, malformed=None, form={})
+    for k in 'hKdc':
+        vals = norm(c[k], T)[1:]
+        vals = vals + [vals[rng.randrange(T)] + (1 if k == 'd' else 0)] if kind == 'longer' else vals[:-1]
+        v[k] = ['list', vals]
+    return kind, v
+
+
+LIST_EDITS = ['packs-of-24', 'zero', 'plus-1', 'reverse', 'times-3']
+ARRAY_EDITS = ['fill-0', 'plus-1', 'negate', 'slot-1:=0']
+
+def edit_result_container(o, rng):
+    """in-place edit of a list / ndarray the caller received; returns the name of the edit (None: not an editable container)"""
+    if isinstance(o, np.ndarray):
+        if not o.flags.writeable or o.size == 0: return None
+        before = o.copy(); op = rng.choice(ARRAY_EDITS)
+        if op == 'fill-0': o.fill(0)
+        elif op == 'negate': np.negative(o, out=o)
+        elif op == 'slot-1:=0' and o.size > 1: o[1] = 0
+        else: op = 'plus-1'
+        if op == 'plus-1' or np.array_equal(before, o):
+            o += 1; op = op if op == 'plus-1' else op + ',plus-1'
+        return op
+    if isinstance(o, list):
+        if not o: return None
+        before = list(o); op = rng.choice(LIST_EDITS)
+        if op == 'packs-of-24':
+            for t in range(len(o)):
+                if o[t] > 0: o[t] = -(-o[t] // 24) * 24
+        elif op == 'zero':
+            for t in range(len(o)): o[t] = 0
+        elif op == 'reverse': o.reverse()
+        elif op == 'times-3':
+            for t in range(len(o)): o[t] = o[t] * 3
+        if op == 'plus-1' or [float(x) for x in before] == [float(x) for x in o]:
+            for t in range(len(o)): o[t] = o[t] + 1
+            op = op if op == 'plus-1' else op + ',plus-1'
+        return op
+    return None
+
+
+def edit_argument(c, args, rng):
+    """in-place edit of one argument container; returns (description, the instance the arguments now describe) or None"""
+    T = c['T']; form = c.get('form') or {}
+    cand = [(k, j) for j, k in enumerate('hKdc') if c[k][0] == 'list']
+    rng.shuffle(cand)
+    for k, j in cand:
+        l = c[k][1]; off = 1 if len(l) == T + 1 else 0       # period t lives in l[t - 1 + off]
+        ops = ['swap', 'plus-1'] + (['slot-0'] if off else [])
+        rng.shuffle(ops)
+        for op in ops:
+            c2 = copy.deepcopy(c); l2 = c2[k][1]
+            if op == 'swap':
+                pairs = [(a, b) for a in range(off, len(l)) for b in range(a + 1, len(l)) if l[a] != l[b]
+                         and not (k == 'd' and a == off and l[b] == 0)]
+                if not pairs: continue
+                a, b = rng.choice(pairs)
+                l2[a], l2[b] = l2[b], l2[a]
+                if form.get(k, 'float') not in sum(allowed_forms(c2[k]), []): continue
+                args[j][a], args[j][b] = args[j][b], args[j][a]
+                return ('%s: periods %d and %d swapped' % (k, a + 1 - off, b + 1 - off), c2)
+            a = 0 if op == 'slot-0' else rng.randrange(off, len(l))
+            l2[a] = l2[a] + 1
+            if form.get(k, 'float') not in sum(allowed_forms(c2[k]), []): continue
+            args[j][a] = args[j][a] + 1
+            return (('%s: ignored slot 0 of the length-(T+1) list +1' % k) if op == 'slot-0' else '%s: period %d +1' % (k, a + 1 - off), c2)
+    return None
+
+
+def session(c, r):
+    """plays the call sequence described in RULE on a well-formed instance whose single call returned r; returns (findings, histogram labels)"""
+    rng = random.Random(c['session'])
+    T = c['T']; bad = []; labels = []; log = []
+    def found(sig, what):
+        bad.append((sig, '%s. Call sequence: %s' % (what, '; '.join(log))))
+    held = []      # [name, raw result, what the caller left in it]
+    def check_held(when, skip=None):
+        for hd in held:
+            if hd is skip: continue
+            now = conv(hd[1])
+            if now != hd[2]:
+                found('earlier-result-changed', 'the objects returned by %s held %r and hold %r %s' % (hd[0], jsonable(hd[2]), jsonable(now), when))
+                hd[2] = now
+    def shapes(cx):
+        form = cx.get('form') or {}
+        return {k: (cx[k][0] if cx[k][0] == 'scalar' else 'list[%d]' % len(cx[k][1])) + ':' + form.get(k, 'float') for k in 'hKdc'}
+    try:
+        args = py_args(c); before = copy.deepcopy(args)
+        res = raw_call(T, args); first = conv(res)
+        log.append('call 1 with arguments %r -> Q=%r cost=%r' % (shapes(c), jsonable(first[0]), jsonable(first[1])))
+        if as_result(first) != tuple(r):
+            found('second-call-differs', 'a further call with equal arguments gives %r, the first gave %r' % (jsonable(first[:2]), jsonable(r[1:3])))
+        held.append(['call 1', res, first]); last = held[-1]
+        # (1) a call on another horizon in between
+        kind, v = other_horizon(c, rng); labels.append('session_other_horizon=' + kind)
+        rv = raw_call(v['T'], py_args(v, canonical=True))
+        log.append('call on a %s horizon (T=%d)' % (kind, v['T']))
+        held.append(['the call with T=%d' % v['T'], rv, conv(rv)])
+        check_held('after a call on another horizon')
+        # (2) the caller edits what it got, then asks again for the same data
+        ncall = 1
+        for rnd in range(rng.choice([2, 2, 3])):
+            for idx, name in enumerate(['order_quantities', 'cost', 'costs_to_go', 'next_order_periods']):
+                others = conv(last[1])
+                op = edit_result_container(last[1][idx], rng)
+                if op is None: continue
+                labels.append('session_edit_%s=%s' % (name, op.split(',')[0]))
+                log.append('caller edits %s of %s in place (%s)' % (name, last[0], op))
+                now = conv(last[1])
+                if any(now[i] != others[i] for i in range(4) if i != idx):
+                    found('returned-containers-share-storage', 'editing %s of %s changed another object of the same result: %r -> %r' % (
+                        name, last[0], jsonable(others), jsonable(now)))
+                last[2] = now
+                check_held('after the caller edited %s of %s' % (name, last[0]), skip=last)
+                if not same_args(args, before):
+                    found('result-aliases-arguments', 'editing the returned %s changed the caller\'s arguments: %r -> %r' % (name, before, args))
+                    before = copy.deepcopy(args)
+            how = rng.choice(['same-objects', 'redrawn-form', 'redrawn-form', 'float-lists'])
+            labels.append('session_repeat=' + how)
+            if how == 'same-objects': a2 = args; desc = 'the same argument objects'
+            elif how == 'float-lists': a2 = py_args(c, canonical=True); desc = 'the same values as length-(T+1) float lists'
+            else:
+                c2 = reform(c, rng); a2 = py_args(c2); desc = 'the same values as fresh objects %r' % (shapes(c2),)
+            ncall += 1
+            res2 = raw_call(T, a2); got = conv(res2)
+            log.append('call %d with %s -> Q=%r cost=%r' % (ncall, desc, jsonable(got[0]), jsonable(got[1])))
+            cut = (lambda x: x) if how == 'same-objects' else (lambda x: (x[0][1:], x[1], x[2][1:], x[3][1:]))
+            if cut(got) != cut(first):
+                clauses = sorted({sg for sg, _ in oracle(c, as_result(got))}) if all(len(got[i]) == len(first[i]) for i in (0, 2, 3)) else ['shape']
+                found('repeat-call-after-result-edited', 'call %d (same data, %s) returns Q=%r cost=%r theta=%r next=%r; call 1 returned Q=%r cost=%r theta=%r next=%r; '
+                      'clauses broken by the later answer: %s' % (ncall, desc, jsonable(got[0]), jsonable(got[1]), jsonable(got[2]), jsonable(got[3]),
+                                                                jsonable(first[0]), jsonable(first[1]), jsonable(first[2]), jsonable(first[3]), ', '.join(clauses) or 'none (another optimal plan)'))
+            held.append(['call %d' % ncall, res2, got])
+            check_held('after call %d' % ncall, skip=held[-1])
+            last = held[-1]
+        # (3) the caller reuses its argument containers for edited data
+        ed = edit_argument(c, args, rng)
+        if ed is not None:
+            desc, c3 = ed; labels.append('session_argument_edit=' + desc.split(':')[0] + ':' + ('swap' if 'swapped' in desc else 'slot-0' if 'slot 0' in desc else 'plus-1'))
+            log.append('caller edits its argument container in place (%s)' % desc)
+            check_held('after the caller edited its own argument container (%s)' % desc)
+            before = copy.deepcopy(args)
+            ncall += 1
+            got = conv(raw_call(T, args))
+            log.append('call %d with the same (edited) argument objects -> Q=%r cost=%r' % (ncall, jsonable(got[0]), jsonable(got[1])))
+            if not same_args(args, before):
+                found('mutates-its-arguments', 'arguments before call %d %r, after %r' % (ncall, before, args))
+            if not all(len(got[i]) == len(first[i]) for i in (0, 2, 3)):
+                found('call-after-arguments-edited-in-place', 'outputs of call %d have the wrong lengths' % ncall)
+            else:
+                for sg, what in oracle(c3, as_result(got)):
+                    found('call-after-arguments-edited-in-place', 'for the edited data %s: %s' % (sg, what))
+            check_held('after call %d' % ncall)
+        else:
+            labels.append('session_argument_edit=none')
+    except Exception as e:
+        found('call-sequence-raises-%s' % exc_kind(e), 'valid call sequence raises %s: %s' % (exc_kind(e), str(e)[:200]))
+    # one finding per signature is enough for a case
+    seen = set(); out = []
+    for sg, what in bad:
+        if sg not in seen: seen.add(sg); out.append((sg, what))
+    return out, labels
+
+
 def explore(chk, n, tmax, do_model=True):
     cases = [gen_case(chk.rng, tmax) for _ in range(n)]
     impl = [run_impl(c) for c in cases]
@@ -231,7 +449,9 @@ def explore(chk, n, tmax, do_model=True):
             chk.fail('wagner_whitin|raises-%s' % r[1], 'valid input raises %s: %s' % (r[1], r[2]), c)
             chk.case(c, False); continue
         bad = oracle(c, r) + forms_oracle(c, r)
-        for sig, what in bad:
+        sbad, labels = session(c, r)
+        for lb in labels: chk.count(lb)
+        for sig, what in bad + sbad:
             chk.fail('wagner_whitin|' + sig, what, c)
         norders = sum(1 for x in r[1][1:] if x != 0)
         nontriv = 1 < norders < T
@@ -269,7 +489,7 @@ def replay(chk, rp):
     if r[0] in ('mutated', 'unstable'):
         chk.fail('wagner_whitin|%s' % ('mutates-its-arguments' if r[0] == 'mutated' else 'second-call-differs'), r[1], c)
     elif r[0] == 'ok':
-        for sig, what in oracle(c, r) + forms_oracle(c, r):
+        for sig, what in oracle(c, r) + forms_oracle(c, r) + (session(c, r)[0] if 'session' in c else []):
             chk.fail('wagner_whitin|' + sig, what, c)
     elif not c.get('malformed'):
         chk.fail('wagner_whitin|raises-%s' % r[1], r[2], c)
